@@ -41,7 +41,7 @@ NREG = 10
 CTORS = ['ni', 'nf', 'ns', 'np', 'na', 'na', 'na', 'nl', 'nl', 'nt', 'nt', 'nr', 'nr', 'nu', 'nR', 'ng', 'nn', 'nn']
 MUT = ['pu', 'pu', 'ap', 'pa', 'pa', 'po', 'pt', 'se', 'se', 'rm', 'rm', 'so', 'rs', 'cl', 'cc', 'as', 'sw', 'cp', 'el', 'el', 'el', 'el']
 OBS = ['ge', 'ge', 'me', 'ln', 'ha', 'it', 'it', 'ib', 'sl', 'rv', 'zp', 'en', 'fi', 'ma', 'ty', 'sh', 'de', 'ci', 'cm', 'lk', 'iq']
-FREE = ['tc', 'tc', 'tn', 'rg', 'fm', 'fm', 'fm', 'sn', 'ca', 'gc', 'gc', 'D', 'D', 'dr', 'dr', 'dl', 'dl', 'th', 'mx', 'fl', 'hp', 'tf', 'tf', 'rw', 'sk', 'sk', 'mm', 'mm', 'mm', 'hv', 'hv']
+FREE = ['tc', 'tc', 'tn', 'rg', 'fm', 'fm', 'fm', 'sn', 'ca', 'gc', 'gc', 'D', 'D', 'dr', 'dr', 'dl', 'dl', 'th', 'mx', 'fl', 'hp', 'tf', 'tf', 'rw', 'sk', 'sk', 'mm', 'mm', 'mm', 'hv', 'hv', 'rt', 'dy', 'dy']
 
 
 def rint(rng):
@@ -210,6 +210,10 @@ def gen_wl(rng, nops):
                 if op == 'dl':      # the harness clears the Refs to a deleted object; which ones is not tracked here
                     for q in [q for q, kd in kinds.items() if kd == 'Ref']:
                         pass
+            elif op == 'rt':
+                toks.append('rt:%d,%d,%d' % (rng.choice([2, 3, 8, 9, 20, 21, 50, 51, 66, rng.randrange(70)]), rng.randrange(0, 200), rng.randrange(4)))
+            elif op == 'dy':
+                toks.append('dy:%d,%d' % (rng.randrange(0, 9000), rng.randrange(0, 9000)))
             elif op == 'hv':
                 toks.append('hv:%d,%d,%d' % (rng.randrange(10), rng.randrange(0, 200), rint(rng)))
             elif op == 'mm':
@@ -524,6 +528,8 @@ def join(pre, toks):
 
 
 CORPUS_WL = [
+    # seeds C18-r7-1 / r7-2: roots known only to static and malloc'ed memory across table growth; run-time type lifecycles
+    'wl|rt:2,7,0 rt:8,3,1 rt:20,11,2 rt:50,5,3 rt:66,9,0 dy:1234,777 dy:88,4000 rt:9,1,1 dy:5,5 gc D',
     # seed C18-r6-1: heap views holding the only reference to their inputs, a collection, then use of the view
     'wl|' + ' '.join('hv:%d,%d,%d' % (k, 7 + 5 * k, 3 + k) for k in range(10)) + ' gc D',
     # seed C18-r4-2: manual memory management, every destructor path with boundary contents (emptied Box, …)
